@@ -15,7 +15,7 @@ LEVEL = "exploration"
 ENGINE = "simloop"
 RULE = (
     "case = (generated workflow w, 2-6 nodes, some split/nested/duplicated) x (fault plan: a Chooser-picked non-empty "
-    "subset of 1-3 of its jobs raises) x (seeded schedule on the simulated pool incl. worker/polling-loop "
+    "subset of 1-3 of its jobs raises) x (max_concurrent unlimited or 1-3) x (seeded schedule on the simulated pool incl. worker/polling-loop "
     "interleaving so that a job is observed 'running' before it fails).  Non-trivial = at least one job failed, at "
     "least one job was required to run although another failed, and >= 2 workers were used; distinct = distinct "
     "step/event digest."
@@ -28,7 +28,7 @@ ASSUMPTIONS = [
     "'depends on' is read in both ways: jobs that are node-level but not data-level dependent on a failure are left unconstrained",
     "the submission of a workflow with a failing job must raise (raise_errors is False for the cf worker, but Task.__call__ raises on an errored result)",
 ]
-PROBES = ["job_seen_running", "running_to_errored", "bodies_overlapped", "failed_while_sibling_running", "multi_failure", "nested_failure"]
+PROBES = ["limited_concurrency", "job_seen_running", "running_to_errored", "bodies_overlapped", "failed_while_sibling_running", "multi_failure", "nested_failure"]
 NWF = {"quick": 60, "thorough": 900}
 NSCHED = {"quick": 5, "thorough": 12}
 
@@ -80,7 +80,8 @@ def run_case(case, ch, workdir):
             must_run.add(k)
     prof = wc.gen_profile(ch)
     prof["hold_body"] = ch.pick([0, 2, 2, 3], "hold")
-    env, status, val = wc.sim_run(ch, workdir, spec, prof, salt=case["id"], plan_path=plan_path)
+    mc = ch.pick([None, None, 1, 2, 3], "max_concurrent")
+    env, status, val = wc.sim_run(ch, workdir, spec, prof, salt=case["id"], plan_path=plan_path, max_concurrent=mc)
     try:
         sim = env.sim
         enters, order, prod = wc.exec_summary(sim.events)
@@ -89,12 +90,14 @@ def run_case(case, ch, workdir):
         res["steps"] = sim.steps
         res["sim_s"] = sim.now - 1_700_000_000.0
         res["digest"] = sim.digest()
-        res["sample"].update({"failing": sorted(failed), "must_run": len(must_run), "must_not_run": len(must_not), "n_procs": prof["n_procs"], "status": status})
+        res["sample"].update({"failing": sorted(failed), "must_run": len(must_run), "must_not_run": len(must_not), "n_procs": prof["n_procs"], "max_concurrent": mc, "status": status})
         sim.fault("planned_job_failure", len(fails))
         if wc.overlap_stats(order) > 1:
             sim.probe("bodies_overlapped")
         if len(fails) > 1:
             sim.probe("multi_failure")
+        if mc is not None:
+            sim.probe("limited_concurrency")
         if any("i" in wc.node_of_key(k) for k in fails):
             sim.probe("nested_failure")
         cur = set()
